@@ -511,6 +511,21 @@ class Act:
         self.fails = []
 
 
+def _entry_of(v):
+    """the `map.entry(key)` call a Vacant / Occupied slot value was bound from"""
+    v0 = core(v)
+    for _ in range(4):
+        if isinstance(v0, Sel):
+            v0 = core(v0.base)
+        elif isinstance(v0, MutV):
+            v0 = core(v0.base)
+        else:
+            break
+    if isinstance(v0, CallV) and v0.callee.endswith(("HashMap::entry", "BTreeMap::entry")) and len(v0.args) == 2:
+        return v0
+    return None
+
+
 def hir_nodes(n):
     if isinstance(n, dict):
         if "k" in n:
@@ -862,6 +877,12 @@ class Interp:
                     f = self._some(v0)
                     f = Not(f if f is not None else atom("some", v0.r()))
                     subsel = lambda key: Sel(v, "?")
+                elif short in ("Vacant", "Occupied") and _entry_of(v0) is not None and (vname or "").endswith(("map::Entry::Vacant", "map::Entry::Occupied")):
+                    # the entry is vacant exactly when the map does not contain the key
+                    ent_ = _entry_of(v0)
+                    ck_ = atom("opaque", "%s::contains_key(%s, %s)" % (ent_.callee.rsplit("::", 1)[0], core(ent_.args[0]).r(), core(ent_.args[1]).r()))
+                    f = Not(ck_) if short == "Vacant" else ck_
+                    subsel = lambda key: Sel(v, "#%s.%s" % (short, key))
                 else:
                     f = atom("variant", v0.r(), short)
                     subsel = lambda key: Sel(v, "#%s.%s" % (short, key))
@@ -1628,6 +1649,21 @@ class Interp:
             if last in ("eq", "ne") and len(args) == 2:
                 f = self.eq_formula(args[0], args[1])
                 return BoolV(f if last == "eq" else Not(f))
+        # ---- std HashMap / BTreeMap Entry API: `map.entry(k)` then `Vacant(slot)` / `Occupied(slot)` ----
+        if "map::VacantEntry" in callee or "map::OccupiedEntry" in callee or (inst and ("map::VacantEntry" in inst or "map::OccupiedEntry" in inst)):
+            ent = _entry_of(a0)
+            if ent is not None:
+                m_, k_ = ent.args[0], ent.args[1]
+                if last == "key":
+                    return Via("key", k_, inst or callee)
+                if last in ("insert", "insert_entry") and len(args) == 2:
+                    ins_name = ent.callee.rsplit("::", 1)[0] + "::insert"
+                    self.muts.append((m_, "method:" + ins_name, [k_, args[1]], n, self.cur_fn(), self.cur_cond()))
+                    if isinstance(m_, MutV):
+                        m_.ops.append(("call", "insert", k_, args[1]))
+                    return CallV(inst or callee, args, n, inst)
+                if last in ("get", "get_mut", "into_mut"):
+                    return CallV(ent.callee.rsplit("::", 1)[0] + "::get", [m_, k_], n, inst)
         # ---- mutation through &mut receiver ----
         rn = n.get("recv")
         if rn is not None and (rn.get("aty") or rn.get("ty") or "").startswith("&mut "):
